@@ -226,6 +226,16 @@ Theorem C16_autoreset_only_unset_blocks :
 Proof. exact only_unset_blocks. Qed.
 Print Assumptions C16_autoreset_only_unset_blocks.
 
+(* with a single consumer (all next commands in one thread's program, i.e. nexts issued one after
+   the other) a next completes with done only if the event is DONE: no spurious end of stream *)
+Theorem C16_autoreset_single_consumer_done_only_if_done :
+  forall (ready0 : bool) (progs : list (list cmd)) (sched : list nat),
+  NoDup (all_nexts progs) -> consumers progs <= 1 ->
+  let s := fst (run step sched (init ready0 progs, [])) in
+  forall w, In (w, false) (results s) -> s3v s = Done.
+Proof. exact single_consumer_done_only_if_done. Qed.
+Print Assumptions C16_autoreset_single_consumer_done_only_if_done.
+
 (* REFUTED for two or more concurrent consumers: "a next completes with done only if the event
    is DONE".  Witness: two nexts waiting, one set(): both are resumed, the first try_reset wins
    (value), the second finds UNSET and its next-sender completes with done; set_done() is never
